@@ -652,6 +652,41 @@ func TestC07(t *testing.T) {
 				h.R.Sample("pair", ps.cases[len(ps.cases)/3])
 			}
 		}
+		// every pooled abbreviation that is not a metric of the version x every value that is legal for some metric of
+		// the version: Set must fail and leave the object unchanged (an unknown abbreviation that is taken for a
+		// neighbouring metric - the Modified prefix put on a metric that has no Modified form - changes that metric)
+		for vi, v := range spec.Versions {
+			seenVal := map[string]bool{}
+			var vals []string
+			for _, m := range v.Metrics {
+				for _, x := range m.Vals {
+					if !seenVal[x] {
+						seenVal[x] = true
+						vals = append(vals, x)
+					}
+				}
+			}
+			var unknown []string
+			for _, a := range gen.AllAbvs() {
+				if !v.Has(a) {
+					unknown = append(unknown, a)
+				}
+			}
+			bgc := Offer{Ver: vi, A: background(v, 3)}
+			if o, err := adapt.Pkgs[vi].Build(bgc.A); err == nil {
+				bgc.base = o
+			}
+			per := len(vals)
+			Enum(h, "unknown-set", len(unknown)*per, func(i int) Offer {
+				c := bgc
+				c.Abv, c.Val = gen.BStr(unknown[i/per]), gen.BStr(vals[i%per])
+				return c
+			}, nil, checkOffer)
+			if !h.replaying() {
+				h.R.AddExact(int64(len(unknown)*per), int64(len(unknown)*per))
+				h.R.Count(fmt.Sprintf("v%s exhaustive: Set with every pooled unknown abbreviation x every value legal somewhere in the version", v.Name), int64(len(unknown)*per))
+			}
+		}
 		// every window of 5 consecutive metrics x all value combinations x 3 backgrounds: on each such object every
 		// metric set to every value
 		for vi, v := range spec.Versions {
